@@ -172,8 +172,19 @@ def scipyNoGradient : List String := ["nelder-mead", "powell", "cobyla", "cobyqa
 
 /-- dtypes of starting points -/
 inductive DT where
-  | f32 | f64 | c64 | c128
+  | f32 | f64 | c64 | c128 | i32 | i64 | bool
 deriving Repr, DecidableEq
+
+/-- `jnp.issubdtype(x0.dtype, jnp.inexact)`: the starting points `minimize` takes.  An integer or
+    boolean start is rejected (TypeError): kept as the dtype of the optimization variable it would
+    truncate every trial point before `func` sees it (finding `minimize-integer-start`). -/
+def DT.isInexact : DT → Bool
+  | .f32 | .f64 | .c64 | .c128 => true
+  | _ => false
+
+/-- what `res.x.astype(x0_dtype)` did to scipy's float64 vector for an integer start before the
+    repair: truncation toward zero (`truncOld` of the scalar type) -/
+def resultIntOld {α} (truncOld : α → α) (v : List α) : List α := v.map truncOld
 
 def DT.isComplex : DT → Bool
   | .c64 | .c128 => true
